@@ -572,6 +572,11 @@ def _threaded_redirect_counted(ctx):
                             for k, v in class_methods(c_).items():
                                 ms.setdefault(k, v)
                     cands = [ms[k] for k in ("__enter__", "__exit__") if k in ms]
+                    # ... and the private helpers of the class they call (the store may be one call away)
+                    for k_ in list(cands):
+                        for c_ in calls_in(k_):
+                            if isinstance(c_.func, ast.Attribute) and unparse(c_.func.value) == "self" and c_.func.attr in ms and ms[c_.func.attr] not in cands:
+                                cands.append(ms[c_.func.attr])
                 elif isinstance(d, FuncTypes):
                     cands = [d]
             for cq, cf in m.functions():
